@@ -705,6 +705,7 @@ func ruleTabCLI(c *Ctx, r *Rep) {
 		}
 		for _, ci := range cis {
 			got := map[int64]bool{}
+			bases := map[int64]bool{}
 			seen := map[ssa.Value]bool{}
 			var walk func(v ssa.Value)
 			walk = func(v ssa.Value) {
@@ -713,6 +714,11 @@ func ruleTabCLI(c *Ctx, r *Rep) {
 				}
 				seen[v] = true
 				switch x := v.(type) {
+				case *ssa.Const:
+					// what the word is before any flag was looked at
+					if x.Value != nil {
+						bases[x.Int64()] = true
+					}
 				case *ssa.Phi:
 					for _, e := range x.Edges {
 						walk(e)
@@ -756,6 +762,9 @@ func ruleTabCLI(c *Ctx, r *Rep) {
 			walk(ci.Common().Args[1])
 			all := got[1] && got[2] && got[4] && got[8] && got[16] && len(got) == 5
 			r.Check(all, "planning-receives-flags", c.Pos(ci.Pos()), "PlanBulkUpdate gets the OR of the five flag bits", sprintf("%v", got))
+			if len(bases) > 0 {
+				r.Check(len(bases) == 1 && bases[0], "strategy-starts-empty", c.Pos(ci.Pos()), "the strategy word is empty before the flags are looked at (a flag switched off is a bit that is not set)", sprintf("%v", bases))
+			}
 		}
 	}
 	_ = orInstrs
